@@ -18,6 +18,9 @@ def scenarios(tier):
   out.append(('mux partial writes under back-pressure',
               {'stack': 'mux', 'endpoints': 1, 'ops': [('call', 'v0', 0.1025), ('call', 'v1'), ('call', 'v2')],
                'faults': ['block-partial', 'drop'], 'timeout': 0.5025}))
+  out.append(('mux long back-pressure in the middle of a frame while periodic pings come due',
+              {'stack': 'mux', 'endpoints': 1, 'ops': [('call', 'L0', 50.0025), ('call', 'L1', 50.0025)], 'faults': ['block-long'],
+               'timeout': 50.0025, 'horizon': 45.0, '_bound': 2, 'max_steps': 900}))
   out.append(('thrift 2 endpoints, 3 concurrent calls',
               {'stack': 'thrift', 'endpoints': 2, 'ops': [('call', 'q0', 0.1025), ('call', 'q1'), ('call', 'q2', 0.2025)], 'open_timeout': 0,
                'faults': FAULTS, 'timeout': 0.5025}))
